@@ -1034,8 +1034,7 @@ impl<'a> G<'a> {
                 for _ in 0..n {
                     xs.push(self.default_for(file, t)?);
                 }
-                // set literals must not repeat an element
-                xs.dedup();
+                // set literals must not repeat an element (list literals may, and do)
                 if matches!(rt, Ty::Set(_)) {
                     let mut seen: Vec<Lit> = vec![];
                     xs.retain(|x| {
@@ -1293,6 +1292,39 @@ pub fn generate(seed: u64, profile: &GenProfile) -> Schema {
         g.s.defs.push(Def { file, name: format!("U{}", counters.1), kind: Kind::Union, fields: ufs, annots: vec![] });
         counters.1 += 1;
     }
+    // directed, when recursion is generated: MUTUAL recursion (the random part only makes
+    // self-recursive structs): a two-cycle whose back edge goes through a list, declared in
+    // both orders, members that hold a double / a set (derive decisions), and a three-cycle
+    // through an optional field, a map value and a list
+    if profile.recursion {
+        let file = 0usize;
+        let fld = |id: i16, req: Req, ty: Ty| Field { id, name: format!("f{}", id), req, ty, default: None, annots: vec![] };
+        let mut new_struct = |g: &mut G| -> usize {
+            let i = g.s.defs.len();
+            g.s.defs.push(Def { file, name: format!("S{}", counters.0), kind: Kind::Struct, fields: vec![], annots: vec![] });
+            counters.0 += 1;
+            i
+        };
+        let v = new_struct(&mut g);
+        g.s.defs[v].fields = vec![fld(1, Req::Default, Ty::Double), fld(2, Req::Required, Ty::Double)];
+        // order 1: R then I
+        let r = new_struct(&mut g);
+        let i = new_struct(&mut g);
+        g.s.defs[r].fields = vec![fld(1, Req::Optional, Ty::Ref(i)), fld(2, Req::Optional, Ty::Ref(v)), fld(3, Req::Default, Ty::I32)];
+        g.s.defs[i].fields = vec![fld(1, Req::Default, Ty::List(Box::new(Ty::Ref(r)))), fld(2, Req::Optional, Ty::Str)];
+        // order 2: I then R, with a map back edge and a set member
+        let i2 = new_struct(&mut g);
+        let r2 = new_struct(&mut g);
+        g.s.defs[i2].fields = vec![fld(1, Req::Default, Ty::List(Box::new(Ty::Ref(r2)))), fld(2, Req::Default, Ty::Map(Box::new(Ty::Str), Box::new(Ty::Ref(r2))))];
+        g.s.defs[r2].fields = vec![fld(1, Req::Optional, Ty::Ref(i2)), fld(2, Req::Required, Ty::Ref(v)), fld(3, Req::Default, Ty::Set(Box::new(Ty::I32)))];
+        // three-cycle
+        let p0 = new_struct(&mut g);
+        let p1 = new_struct(&mut g);
+        let p2 = new_struct(&mut g);
+        g.s.defs[p0].fields = vec![fld(1, Req::Optional, Ty::Ref(p1)), fld(2, Req::Default, Ty::I64)];
+        g.s.defs[p1].fields = vec![fld(1, Req::Default, Ty::Map(Box::new(Ty::I32), Box::new(Ty::Ref(p2))))];
+        g.s.defs[p2].fields = vec![fld(1, Req::Default, Ty::List(Box::new(Ty::Ref(p0)))), fld(2, Req::Default, Ty::Double)];
+    }
     // directed, when defaults are generated: a struct literal default that names
     // inner fields whose IDL spelling is not the Rust identifier, for an inner
     // struct with and without its own defaults, in every requiredness
@@ -1352,6 +1384,18 @@ pub fn generate(seed: u64, profile: &GenProfile) -> Schema {
             Field { id: 4, name: "f4".into(), req: Req::Default, ty: Ty::Ref(ts1), default: Some(str_lit(cs, "x y")), annots: vec![] },
             Field { id: 5, name: "f5".into(), req: Req::Optional, ty: Ty::Ref(ts1), default: Some(Lit::Str("lit".into())), annots: vec![] },
             Field { id: 6, name: "f6".into(), req: Req::Default, ty: Ty::Ref(tl1), default: Some(Lit::List(vec![Lit::Int(1), int_lit(ci, 2)])), annots: vec![] },
+            // list literals with repeated elements keep every one of them, in order
+            Field { id: 7, name: "f7".into(), req: Req::Default, ty: Ty::List(Box::new(Ty::I32)), default: Some(Lit::List(vec![Lit::Int(0), Lit::Int(0), Lit::Int(5), Lit::Int(0)])), annots: vec![] },
+            Field { id: 8, name: "f8".into(), req: Req::Optional, ty: Ty::List(Box::new(Ty::Str)), default: Some(Lit::List(vec![Lit::Str("-".into()), Lit::Str("-".into()), Lit::Str("=".into())])), annots: vec![] },
+            Field {
+                id: 9,
+                name: "f9".into(),
+                req: Req::Required,
+                ty: Ty::List(Box::new(Ty::List(Box::new(Ty::I64)))),
+                default: Some(Lit::List(vec![Lit::List(vec![Lit::Int(1), Lit::Int(2)]), Lit::List(vec![Lit::Int(1), Lit::Int(2)]), Lit::List(vec![Lit::Int(3)])])),
+                annots: vec![],
+            },
+            Field { id: 10, name: "f10".into(), req: Req::Default, ty: Ty::List(Box::new(Ty::Double)), default: Some(Lit::List(vec![Lit::Int(1), Lit::Dbl("1.0".into()), Lit::Int(1)])), annots: vec![] },
         ];
         g.s.defs.push(Def { file, name: format!("S{}", counters.0), kind: Kind::Struct, fields: fs, annots: vec![] });
         counters.0 += 1;
